@@ -179,9 +179,12 @@ structure RespIn where
   ready : Nat
 deriving Repr, DecidableEq
 
-/-- Python raises `ValueError: negative shift count` exactly here (`Py.shrT` is total, so the guard is explicit) -/
+/-- Python raises `ValueError: negative shift count` exactly here (`Py.shrT` is total, so the guard is explicit): state 4 with a
+    negative `temp_size`.  Since the repair 21add98 (state 2 goes straight to state 5 when `temp_size < 0`) this configuration is
+    unreachable from power-up — `C20.resp_run` proves that no run from the idle state ever returns `none`, for every size incl. 0 —
+    the guard only matters for the driver's arbitrary start states.
+    (Before 21add98 there was a second clause: state 2, ready, `temp_size*4 < 0`, i.e. size = 0 raised after '='.) -/
 def respRaises (s : CMDResponse.St) (i : RespIn) : Bool :=
-  (s.state == 2 && i.ready != 0 && decide (s.temp_size * 4 < 0)) ||
   (s.state == 4 && i.ready != 0 && s.temp_size != 0 && decide ((s.temp_size - 1) * 4 < 0))
 
 /-- one `sim.clk(1)` of a CMDResponse instance whose `v` wire is `wv` bits wide; `none` = the call raises -/
